@@ -152,6 +152,7 @@ inductive Touch (s s' : Sys) (m : Msg) (ms : List Msg) : Prop where
       (hs : SentBy swapA ms) (hb : ∀ x ∈ ms, ∃ t d a, x = Msg.bankSend swapA t d a)
   | hub (s1 : Sys) (sender : Addr) (funds : List (Denom × Nat)) (hm : HubMsg)
       (heq : m = .wasm sender hubA (.hub hm) funds) (h1 : SameContracts s s1)
+      (hmv : s.moveFunds sender hubA funds = .ok s1)
       (hc : s1.chain.deleg = s.chain.deleg ∧ s1.chain.delegSet = s.chain.delegSet ∧ s'.chain = s1.chain)
       (hx : hubExec s.hub s1.hubEnv sender funds hm = .ok (s'.hub, ms))
       (b : s'.bsei = s.bsei) (t : s'.stsei = s.stsei) (r : s'.reward = s.reward) (d : s'.disp = s.disp) (g : s'.reg = s.reg)
@@ -234,7 +235,7 @@ theorem handle_touch (s s' : Sys) (m : Msg) (ms : List Msg) (hx : s.handle m = .
           · cases hx
           · rename_i r hr
             cases hx
-            refine .hub s1 sender funds hm (by rw [t1]) sc ⟨sk.1, sk.2, rfl⟩ ?_ sc.bsei sc.stsei sc.reward sc.disp sc.reg
+            refine .hub s1 sender funds hm (by rw [t1]) sc (by rw [← t1]; exact h1) ⟨sk.1, sk.2, rfl⟩ ?_ sc.bsei sc.stsei sc.reward sc.disp sc.reg
             rw [← sc.hub]; exact hr
         · cases hx
       · simp only [t1, if_false] at hx
@@ -337,7 +338,7 @@ theorem handle_sentBy (s s' : Sys) (m : Msg) (ms : List Msg) (hx : s.handle m = 
             · cases hx
             · simp only [ht, sinkA, hubA, bseiA, stseiA, rewardA, dispA, regA, swapA] at hx
               simp at hx
-    | hub s1 sender funds hm' heq h1 hc hx' b' t r d' g =>
+    | hub s1 sender funds hm' heq h1 _ hc hx' b' t r d' g =>
       rw [hm] at heq; injection heq with _ e2 _ _; subst e2
       exact hubExec_sentBy _ _ _ _ _ _ _ hx'
     | bsei s1 sender funds tm heq h1 hx' h t r d' g =>
@@ -382,7 +383,7 @@ theorem exec_rejected_hub (s : Sys) (sender : Addr) (funds : List (Denom × Nat)
       · exact hm' _ _ _ _ rfl
       · injection heq with _ e2 _ _
         rcases ht with ht | ht <;> (rw [ht] at e2; cases e2)
-    | hub s1 sender' funds' hm' heq h1 hc hx' _ _ _ _ _ =>
+    | hub s1 sender' funds' hm' heq h1 _ hc hx' _ _ _ _ _ =>
       injection heq with e1 _ e3 e4
       injection e3 with e3
       subst e1; subst e3; subst e4
@@ -414,7 +415,7 @@ theorem exec_rejected_disp (s : Sys) (sender : Addr) (funds : List (Denom × Nat
       subst e1; subst e3; subst e4
       obtain ⟨err, he⟩ := h env
       rw [he] at hx'; cases hx'
-    | hub s1 sender' funds' hm' heq _ _ _ _ _ _ _ _ => injection heq with _ e2 _ _; cases e2
+    | hub s1 sender' funds' hm' heq _ _ _ _ _ _ _ _ _ => injection heq with _ e2 _ _; cases e2
     | bsei s1 sender' funds' tm heq _ _ _ _ _ _ _ => injection heq with _ e2 _ _; cases e2
     | stsei blk sender' funds' tm heq _ _ _ _ _ _ => injection heq with _ e2 _ _; cases e2
     | reward s1 sender' funds' rm heq _ _ _ _ _ _ _ _ _ => injection heq with _ e2 _ _; cases e2
@@ -440,7 +441,7 @@ theorem exec_rejected_reward (s : Sys) (sender : Addr) (funds : List (Denom × N
       subst e1; subst e3; subst e4
       obtain ⟨err, he⟩ := h (s1.hubTokenOf s1.reward.hub) (s1.hubDispatcherOf s1.reward.hub) (s1.chain.bank rewardA)
       rw [he] at hx'; cases hx'
-    | hub s1 sender' funds' hm' heq _ _ _ _ _ _ _ _ => injection heq with _ e2 _ _; cases e2
+    | hub s1 sender' funds' hm' heq _ _ _ _ _ _ _ _ _ => injection heq with _ e2 _ _; cases e2
     | bsei s1 sender' funds' tm heq _ _ _ _ _ _ _ => injection heq with _ e2 _ _; cases e2
     | stsei blk sender' funds' tm heq _ _ _ _ _ _ => injection heq with _ e2 _ _; cases e2
     | disp env sender' funds' dm heq _ _ _ _ _ _ => injection heq with _ e2 _ _; cases e2
